@@ -1,6 +1,6 @@
 ----------------------------- MODULE Trace_Tui -----------------------------
 (* Step V for C17.  One event per call of the real update():                *)
-(*   [n, key, w, first, before, out, after]                                 *)
+(*   [n, m, key, w, first, before, out, after]                              *)
 (* before/after are the projections of the real Jet1090 structure around    *)
 (* the call (after is absent when the call panicked), out is "ok", "err"    *)
 (* or "panic", first says that before is the start-up state, w is the width *)
@@ -24,7 +24,7 @@ Reason(ev) == IF ~Known(ev) THEN "unknown-key"
               ELSE Why(ev.before, ev.key, ev.after)
 
 DesignOk(ev) == /\ Known(ev)
-                /\ ev.first => ev.before = InitState(ev.n)
+                /\ ev.first => ev.before = InitState(ev.n, ev.m)
                 /\ ev.out = "ok"
                 /\ ev.after = Step(ev.before, ev.key, ev.w)
 
